@@ -118,6 +118,24 @@ void op_assign(const Step& s) {
 	api_begin(); *c.fa[i].aut = *c.fa[j].aut; c.fa[i].model = c.fa[j].model; c.fa[i].origin = c.fa[j].origin; count(c_handles_shared);
 	after_mutation(s, "fa_assign");
 }
+// an object with a history (see et_twist): a near relative of the handle's value is built aside and copy-assigned over the same object
+void op_twist(const Step& s) {
+	FAH& h = H(s, 0); Rng r(uint64_t(s.arg(1)) + 43);
+	std::set<std::string> ss; for (const Edge& e : h.model.edges) ss.insert(e.sym);
+	std::vector<std::string> syms(ss.begin(), ss.end()); if (syms.empty()) syms.push_back("a");
+	if (h.model.edges.size() > 400) throw Skip();
+	FA rel = gen::derive_fa(r, syms, h.model, 1 + int(mod(s.arg(2), 3)));
+	if (s.arg(2) & 4) rel = gen::derive_fa(r, syms, rel, 1 + int(r.below(3)));
+	rel.start_syms.clear();
+	EF fresh;
+	for (long q : rel.starts) fresh.SetStateStart(StateType(q), sym_num(fresh, "x"));
+	for (const Edge& e : rel.edges) fresh.AddTransition(StateType(e.src), sym_num(fresh, e.sym), StateType(e.dst));
+	for (long q : rel.finals) fresh.SetStateFinal(StateType(q));
+	api_begin();
+	*h.aut = fresh;
+	h.model = rel; h.origin = ++g_origin;
+	after_mutation(s, "fa_twist");
+}
 void op_move_assign(const Step& s) {
 	size_t i = HI(s, 0), j = HI(s, 1); Client& c = CL(s); if (i == j) throw Skip();
 	api_begin(); *c.fa[i].aut = std::move(*c.fa[j].aut); c.fa[i].model = c.fa[j].model; c.fa[i].origin = c.fa[j].origin;
@@ -523,6 +541,12 @@ Plan plan_C09(Rng& r, const std::string& tier) {
 				if (r.chance(1, 6)) g.out.push_back(gen::mk(c, "fa_incl", {b, a, long(r.below(3)), long(r.below(2))}));
 				if (r.chance(1, 3)) g.out.push_back(gen::mk(c, "fa_incl_sim", {a, b, long(r.below(2)), long(r.chance(1, 2) ? 0 : r.below(4))}));      // with a client-supplied simulation preorder
 			}
+			if (r.chance(1, 5)) {
+				// one operand OBJECT gets another value (a near relative is copy-assigned over it) and the question is asked again
+				g.out.push_back(gen::mk(c, "fa_twist", {r.chance(1, 2) ? a : b, long(r.below(100000)), long(r.below(8))}));
+				if (r.chance(1, 2)) g.out.push_back(gen::mk(c, "fa_incl_all", {a, b, long(r.below(100000))}));
+				else g.out.push_back(gen::mk(c, "fa_incl", {a, b, long(r.below(3)), long(r.below(2))}));
+			}
 		}
 		progs.push_back(g.out);
 	}
@@ -552,6 +576,18 @@ Plan plan_C10(Rng& r, const std::string&) {
 					case 4: g.out.push_back(gen::mk(c, "fa_reverse", {a})); ++g.n; break;
 					case 5: g.out.push_back(gen::mk(c, "fa_unreach", {a})); ++g.n; break;
 					case 6: g.out.push_back(gen::mk(c, "fa_useless", {a})); ++g.n; break;
+					default: g.out.push_back(gen::mk(c, "fa_witness", {a})); ++g.n; break;
+				}
+			}
+			if (r.chance(1, 5)) {
+				// an operand OBJECT gets another value and an operation is asked of it again
+				g.out.push_back(gen::mk(c, "fa_twist", {a, long(r.below(100000)), long(r.below(8))}));
+				switch (r.below(6)) {
+					case 0: g.out.push_back(gen::mk(c, "fa_union", {a, b, long(r.below(2))})); ++g.n; break;
+					case 1: g.out.push_back(gen::mk(c, "fa_isect", {a, b, long(r.below(2))})); ++g.n; break;
+					case 2: g.out.push_back(gen::mk(c, "fa_reverse", {a})); ++g.n; break;
+					case 3: g.out.push_back(gen::mk(c, "fa_unreach", {a})); ++g.n; break;
+					case 4: g.out.push_back(gen::mk(c, "fa_useless", {a})); ++g.n; break;
 					default: g.out.push_back(gen::mk(c, "fa_witness", {a})); ++g.n; break;
 				}
 			}
@@ -591,7 +627,7 @@ std::vector<Step> fa_history_program(Rng& r, int c, int ncl, int len) {
 }
 
 void register_fa_ops() {
-	register_op("fa_load", op_load); register_op("fa_build", op_build); register_op("fa_copy", op_copy); register_op("fa_assign", op_assign);
+	register_op("fa_load", op_load); register_op("fa_build", op_build); register_op("fa_copy", op_copy); register_op("fa_assign", op_assign); register_op("fa_twist", op_twist);
 	register_op("fa_move_assign", op_move_assign); register_op("fa_move_ctor", op_move_ctor); register_op("fa_destroy", op_destroy); register_op("fa_give", op_give);
 	register_op("fa_add", op_add); register_op("fa_final", op_final); register_op("fa_start", op_start);
 	register_op("fa_union", op_union); register_op("fa_union_disj", op_union_disj); register_op("fa_isect", op_isect); register_op("fa_reverse", op_reverse);
